@@ -9,7 +9,7 @@ import models as M
 
 TYNAT = {'variable_of_integration': 0, 'state': 1, 'constant': 2, 'computed_constant': 3, 'algebraic': 4, 'external': 5}
 VALID = ('algebraic', 'ode', 'nla', 'dae')
-MIXING = ('-Wint-in-bool-context', '-Wbool-compare', '-Wlogical-not-parentheses', '-Wbool-operation', '-Wparentheses', '-Wabsolute-value')
+MIXING = ('-Wint-in-bool-context', '-Wbool-compare', '-Wlogical-not-parentheses', '-Wbool-operation', '-Wparentheses', '-Wabsolute-value', '-Wdiv-by-zero')
 
 
 def dec(h):
